@@ -149,7 +149,43 @@ using server_t = server<
     %s
 >;
 struct conn_t : server_t::channel_data_t< details::link_state > {};
-int main() { server_t s; conn_t c; std::size_t n = 0; for ( ; server_t::handle_mapping::handle_by_index( n ); ++n ) ; std::uint8_t out[ 300 ]; std::size_t os = 300; const std::uint8_t in[] = { 0x04, 0x01, 0x00, 0xff, 0xff }; s.l2cap_input( in, 5, out, os, c ); std::uint8_t adv[ 31 ]; s.advertising_data( adv, 31 ); printf( "%%zu\\n", n ); }
+#include <random>
+#include <memory>
+int main( int argc, char** argv ) {
+    std::mt19937 rng( argc > 1 ? atoi( argv[ 1 ] ) : 1 );
+    std::size_t n = 0; std::uint16_t maxh = 0; for ( ; server_t::handle_mapping::handle_by_index( n ); ++n ) maxh = server_t::handle_mapping::handle_by_index( n );
+    static const std::uint8_t ops[] = { 0x02, 0x04, 0x06, 0x08, 0x0a, 0x0c, 0x0e, 0x10, 0x12, 0x52, 0x16, 0x18, 0x1e, 0x01, 0xd2, 0x1b, 0x33 };
+    for ( int round = 0; round != 300; ++round ) {
+        auto sp = std::make_unique< server_t >(); server_t& s = *sp; conn_t c[ 2 ];
+        for ( int step = 0; step != 60; ++step ) {
+            conn_t& cn = c[ rng() %% 2 ];
+            if ( rng() %% 10 == 0 ) { cn.is_encrypted( rng() %% 2 ); cn.pairing_status( rng() %% 2 ? device_pairing_status::unauthenticated_key : device_pairing_status::no_key ); }
+            if ( rng() %% 25 == 0 ) { s.client_disconnected( cn ); continue; }
+            std::vector< std::uint8_t > in; in.push_back( ops[ rng() %% sizeof ops ] );
+            auto handle = [&]{ std::uint16_t h = rng() %% 4 == 0 ? std::uint16_t( rng() ) : std::uint16_t( rng() %% ( maxh + 3 ) ); in.push_back( h & 0xff ); in.push_back( h >> 8 ); };
+            switch ( in[ 0 ] ) {
+                case 0x02: in.push_back( rng() %% 80 ); in.push_back( rng() %% 3 == 0 ? rng() : 0 ); break;
+                case 0x04: handle(); handle(); break;
+                case 0x06: handle(); handle(); in.push_back( 0x00 ); in.push_back( 0x28 ); in.push_back( rng() ); in.push_back( 0x18 ); if ( rng() %% 4 == 0 ) in.resize( 23, 0x55 ); break;
+                case 0x08: case 0x10: handle(); handle(); { static const std::uint16_t ts[] = { 0x2800, 0x2801, 0x2802, 0x2803, 0x2902, 0x2901, 0x2a00, 0x2a19, 0x2904 }; auto t = ts[ rng() %% 9 ]; in.push_back( t & 0xff ); in.push_back( t >> 8 ); if ( rng() %% 6 == 0 ) in.resize( 21, 0x3c ); } break;
+                case 0x0a: handle(); break;
+                case 0x0c: handle(); in.push_back( rng() %% 70 ); in.push_back( rng() %% 5 == 0 ? rng() : 0 ); break;
+                case 0x0e: { int k = 1 + rng() %% 4; while ( k-- ) handle(); } break;
+                case 0x12: case 0x52: case 0xd2: handle(); { int k = rng() %% 24; while ( k-- ) in.push_back( rng() ); } break;
+                case 0x16: handle(); in.push_back( rng() %% 70 ); in.push_back( 0 ); { int k = rng() %% 18; while ( k-- ) in.push_back( rng() ); } break;
+                case 0x18: in.push_back( rng() %% 3 ); break;
+                default: { int k = rng() %% 6; while ( k-- ) in.push_back( rng() ); }
+            }
+            if ( rng() %% 8 == 0 ) in.resize( 1 + rng() %% 24, 0x11 );     // wrong sizes
+            const std::size_t mtu = cn.negotiated_mtu(); const std::size_t given = server_t::maximum_channel_mtu_size;
+            std::unique_ptr< std::uint8_t[] > ib( new std::uint8_t[ in.size() ] ); std::copy( in.begin(), in.end(), ib.get() );
+            std::unique_ptr< std::uint8_t[] > ob( new std::uint8_t[ given ] ); std::size_t os = given;
+            s.l2cap_input( ib.get(), in.size(), ob.get(), os, cn );
+            if ( os > mtu ) { printf( "RESPONSE LARGER THAN MTU: %%zu > %%zu op %%02x\\n", os, mtu, in[ 0 ] ); return 1; }
+        }
+    }
+    printf( "%%zu ok\\n", n );
+}
 ''' % ("\n".join(vars_), "\n".join(names), ",\n    ".join(server_opts))
     return src
 if __name__=="__main__":
